@@ -401,6 +401,60 @@ fn check_partition(c: &OCase, obs: &mut Obs) -> CheckResult {
     if avals != want {
         return fail(format!("varg_partition:multiset:{}", shape), format!("varg_partition{} = {:?}: values are not the {} extreme ones {:?}", desc, args, m, want));
     }
+    // ---- non-nullable integer element types: no padding exists for them (DESIGN 5.7), but whenever
+    // k + 1 <= len the k+1 extreme elements are all there, including the exact fit k + 1 == len
+    let ints: Vec<i32> = c.x.iter().map(|v| v.unwrap_or(0.0) as i32).collect();
+    let int_ok = c.x.iter().flatten().all(|v| v.fract() == 0.0 && v.abs() < 1e9);
+    if int_ok && k + 1 <= ints.len() {
+        let mut si = ints.clone();
+        si.sort();
+        if rev {
+            si.reverse();
+        }
+        let want_i: Vec<i32> = si[..k + 1].to_vec();
+        let gi: Vec<i32> = Iterator::collect(ints.vpartition(k, sort, rev));
+        let wide: Vec<i64> = ints.iter().map(|v| *v as i64).collect();
+        let gw: Vec<i64> = Iterator::collect(wide.vpartition(k, sort, rev));
+        let us: Vec<usize> = ints.iter().map(|v| (*v as i64 + 2_000_000_000) as usize).collect();
+        let gu: Vec<usize> = Iterator::collect(us.vpartition(k, sort, rev));
+        for (ty, mut got) in [("i32", gi.iter().map(|v| *v as i64).collect::<Vec<i64>>()), ("i64", gw), ("usize", gu.iter().map(|v| *v as i64 - 2_000_000_000).collect())] {
+            let want64: Vec<i64> = want_i.iter().map(|v| *v as i64).collect();
+            if got.len() != k + 1 {
+                return fail(format!("vpartition:{}:len:{}", ty, shape), format!("vpartition{} on {} elements has {} entries, expected {}", desc, ty, got.len(), k + 1));
+            }
+            if sort && got != want64 {
+                return fail(format!("vpartition:{}:order:{}", ty, shape), format!("vpartition{} on {} elements = {:?}, expected {:?}", desc, ty, got, want64));
+            }
+            got.sort();
+            if rev {
+                got.reverse();
+            }
+            if got != want64 {
+                return fail(format!("vpartition:{}:multiset:{}", ty, shape), format!("vpartition{} on {} elements: not the {} extreme values {:?}", desc, ty, k + 1, want64));
+            }
+        }
+        let ai: Vec<i32> = Iterator::collect(ints.varg_partition(k, sort, rev));
+        let mut av: Vec<i32> = vec![];
+        let mut seen = std::collections::BTreeSet::new();
+        for a in &ai {
+            if *a < 0 || *a as usize >= ints.len() || !seen.insert(*a) {
+                return fail(format!("varg_partition:i32:index:{}", shape), format!("varg_partition{} on i32 elements = {:?}", desc, ai));
+            }
+            av.push(ints[*a as usize]);
+        }
+        if ai.len() != k + 1 || (sort && av != want_i) {
+            return fail(format!("varg_partition:i32:order:{}", shape), format!("varg_partition{} on i32 elements = {:?} -> {:?}, expected {:?}", desc, ai, av, want_i));
+        }
+        av.sort();
+        if rev {
+            av.reverse();
+        }
+        if av != want_i {
+            return fail(format!("varg_partition:i32:multiset:{}", shape), format!("varg_partition{} on i32 elements = {:?}", desc, ai));
+        }
+        obs.class("integer_elements");
+        obs.class_if(k + 1 == ints.len(), "integer_exact_fit");
+    }
     let has_tie = s.windows(2).any(|w| w[0] == w[1]);
     obs.set_nontrivial(n >= 3 && c.x.first().map(|v| v.is_none()).unwrap_or(false) && has_tie);
     obs.class_if(k + 1 >= n, "k>=valid-1");
